@@ -38,7 +38,7 @@ func TestC17Probe(t *testing.T) {
 			if err != nil {
 				t.Fatal(err)
 			}
-			pub, sec := assignFor(rng, s, rn.Inner().ScalarField(), -1)
+			pub, sec := assignFor(rng, s, rn.Inner().ScalarField(), -1, rn.Name() == "2chain")
 			proof, err := in.prove(rn, pub, sec)
 			if err != nil {
 				t.Fatal(err)
